@@ -181,8 +181,8 @@ def e2_bfs(args) -> Acc:
                     viol.append(("stored_target_is_current_target", {"stored": stored, "target": target}))
             else:
                 acc.clauses["expired_proposals_stop_counting"] += 1
-                if target not in (None, 0.0):
-                    viol.append(("expired_proposals_stop_counting", {"target": target, "history": list(h2)}))
+                if target not in (None, 0.0) or stored not in (None, 0.0):
+                    viol.append(("expired_proposals_stop_counting", {"target": target, "stored_target": stored, "history": list(h2)}))
             for clause, detail in viol:
                 acc.violation(Violation(clause, {"driver": "e2", "system": list(sysb), "history": [list(e) for e in h2]}, detail))
             key = digest(sorted(([list(p), round(age, 3)] for p, age in aged), key=repr))
@@ -240,8 +240,11 @@ def e2_expiry(args) -> Acc:
             exp = target_of(live, sysb)
             if target != exp:
                 viol.append(("target_depends_only_on_live_set", {"live": live, "after_history": target, "fresh": exp}))
-        elif target not in (None, 0.0):
-            viol.append(("expired_proposals_stop_counting", {"target": target}))
+        else:
+            st = probe.get_target_power(IDS)
+            st = None if st is None else st.as_watts()
+            if target not in (None, 0.0) or st not in (None, 0.0):
+                viol.append(("expired_proposals_stop_counting", {"target": target, "stored_target": st}))
         for clause, detail in viol:
             acc.violation(Violation(clause, {"driver": "e2", "system": list(sysb), "history": [list(e) for e in hist]}, detail))
         if len(live) >= 2 and sum(1 for e in hist if e[0] == "t") >= 2:
@@ -335,6 +338,6 @@ def replay(case: dict):
             viol.append(("target_depends_only_on_live_set", {"live": live, "after_history": target, "fresh": sorted(exp, key=repr)}))
         if stored != target:
             viol.append(("stored_target_is_current_target", {"stored": stored, "target": target}))
-    elif target not in (None, 0.0):
-        viol.append(("expired_proposals_stop_counting", {"target": target}))
+    elif target not in (None, 0.0) or stored not in (None, 0.0):
+        viol.append(("expired_proposals_stop_counting", {"target": target, "stored_target": stored}))
     return viol
